@@ -599,7 +599,8 @@ class Prop:
     pid = 'C19'
     props_file = 'Props/C19.v'
     required_theorems = ['bmp_length_exact', 'bmp_readback', 'bmp_stream_readback', 'bmp_vflag_iff_v6',
-                         'mrt_readback', 'mrt_length_exact', 'table_dump_counts_consistent']
+                         'mrt_readback', 'mrt_length_exact', 'table_dump_counts_consistent',
+                         'conv_update_faithful', 'loc_rib_header_wf', 'flush_headers_wf', 'dump_peer_indexes_consistent']
     correspondence_name = ('Model/Bmp.v bmp_encode_all vs packet/src/bmp.rs BmpCodec::encode (harness/hx-mon), '
                            'bytes compared one to one')
     rule = ('a case is a session: 1..6 messages through one codec into one (possibly pre-filled) buffer; '
